@@ -4,62 +4,72 @@
 
   Model: Model/Writer (bufiox.DefaultWriter / BytesWriter, object level, delayed copy).
   Spec:  Spec/WriterLog (append-only log of items + store of latest region contents).
-  Every theorem is for EVERY history over {Malloc n, Fill, WriteBinary, Flush, WrittenLen}
-  (n any integer, any number of growths), every sink failure script, every sound allocator
-  (any capacity policy with cap ≥ requested, any dirty content of fresh memory), and the three
-  ways to create a writer.
+
+  RANGE.  The model computes on `Nat` with an allocator that always succeeds; the Go code does not:
+  `mcache.Malloc` has 46 size classes (a request above 2^45 panics with an index out of range —
+  confirmed on the real code with `Malloc(1<<46)`), and `int` is 64 bit (`maxSize *= 2` wraps to 0
+  and spins for `Malloc(1<<62+1)` — confirmed).  Every property theorem below therefore carries the
+  hypothesis `GoRange a s ops`: in the state where each operation runs,
+      running length (WrittenLen) + requested size ≤ 2^44.
+  `range_keeps_requests_small` proves what that buys: every capacity the writer ever holds or
+  remembers is ≤ 2^45, so every pool request is ≤ 2^45 (class index ≤ 45) and every integer the
+  code computes is < 2^46 (no wrap) — inside the range the model's branches are Go's branches.
+  Outside the range the theorems say nothing (the model-level lemmas `refines` /
+  `bytesWriter_target` in Lemmas/WriterModel hold for the Nat model only).
+
+  Within that range every theorem is for EVERY history over {Malloc n, Fill, WriteBinary, Flush,
+  WrittenLen} (n any integer: negative counts included), any number of growths, every sink failure
+  script, every sound allocator (any capacity policy with cap ≥ requested, any dirty content of
+  fresh memory), and the three ways to create a writer.
 -/
-import Verif.Lemmas.WriterSim
+import Verif.Lemmas.WriterModel
 namespace Verif.C05
 open Verif Verif.WLog
 
-/-- how the writer was created -/
-inductive Start where
-  | default (fail : Nat → Option RErr)   -- NewDefaultWriter over a sink with this failure script
-  | bytes (init spare : Bytes)           -- NewBytesWriter(&buf), buf = init with spare capacity
-  | bytesNil                             -- NewBytesWriter(&buf), buf == nil
+/-! ## the range in which the model mirrors the Go code -/
 
-def Start.model : Start → Wr
-  | .default fail => Wr.newDefault fail
-  | .bytes init spare => Wr.newBytes init spare
-  | .bytesNil => Wr.newBytesNil
+/-- the largest capacity mcache can hand out: 46 size classes, `caches[45]` holds 2^45 -/
+def poolLimit : Nat := 2 ^ 45
 
-/-- the initial contents of the target slice (empty unless a bytes writer over a non-empty slice) -/
-def Start.init : Start → Bytes
-  | .bytes init _ => init
-  | _ => []
+/-- hypothesis of every property theorem: in the state where each operation of the history runs,
+    running length + requested size ≤ 2^44 (= poolLimit / 2; growth asks for less than twice that) -/
+def GoRange (a : WAlloc) (s : Start) (ops : List WOp) : Prop := InRange a (2 ^ 44) s.model ops
 
-def Start.spec : Start → Log RErr
-  | .default fail => Log.new fail []
-  | .bytes init _ => Log.new (fun _ => none) init
-  | .bytesNil => Log.new (fun _ => none) []
+instance (a : WAlloc) (s : Start) (ops : List WOp) : Decidable (GoRange a s ops) := decInRange _ _ _ _
 
-/-- model state / spec log after a history -/
-def after (a : WAlloc) (s : Start) (ops : List WOp) : Wr := (s.model.run a ops).2
-def specAfter (s : Start) (ops : List WOp) : Log RErr := (specRun s.spec ops).2
-
-theorem sim_start (s : Start) : WSim s.model s.spec := by
-  cases s with
-  | default fail => exact sim_newDefault fail
-  | bytes init spare => exact sim_newBytes init spare
-  | bytesNil => exact sim_newBytesNil
-
-theorem sim_after (a : WAlloc) (ha : a.Sound) (s : Start) (ops : List WOp) :
-    WSim (after a s ops) (specAfter s ops) := (sim_run a ha _ _ (sim_start s) ops).2
+/-- Inside the range the code never leaves the domain the model covers: after every prefix of the
+    history, the current capacity and the ten remembered capacities are ≤ 2^45.  Every allocation
+    request is ≤ the capacity it yields (`Sound`), hence ≤ 2^45: mcache's class index stays ≤ 45
+    (no index panic), and all lengths/capacities/loop variables stay < 2^46 (no `int` wrap, the
+    doubling loops terminate as modelled).  `a.Within`: the capacity policy itself stays within
+    the limit (true for power-of-two rounding: `pow2_policy_within`); `CapsLe … s.model`: a bytes
+    writer's initial slice is not larger than that either. -/
+theorem range_keeps_requests_small (a : WAlloc) (ha : a.Sound) (hb : a.Within poolLimit) (s : Start)
+    (h0 : CapsLe poolLimit s.model) (ops : List WOp) (hr : GoRange a s ops) :
+    ∀ k, CapsLe poolLimit (after a s (ops.take k)) := by
+  intro k
+  exact capsLe_run a ha poolLimit (2 ^ 44) hb (by decide) (by decide) s.model s.spec (sim_start s) h0
+    (ops.take k) (hr.take k)
 
 /-! ## refinement: every observable result of every history is the log spec's -/
 
-/-- Master theorem.  For every history, the results the caller observes from the model (region
-    ids and lengths from Malloc, counts from WriteBinary, WrittenLen, errors) are exactly those of
-    the log spec, and the states stay related. -/
-theorem refines (a : WAlloc) (ha : a.Sound) (s : Start) (ops : List WOp) :
-    (s.model.run a ops).1 = (specRun s.spec ops).1 ∧ WSim (after a s ops) (specAfter s ops) :=
-  sim_run a ha _ _ (sim_start s) ops
+/-- Master theorem.  For every history in range, the results the caller observes from the model
+    (region ids and lengths from Malloc, counts from WriteBinary, WrittenLen, errors) are exactly
+    those of the log spec, and the states stay related. -/
+theorem refines_in_range (a : WAlloc) (ha : a.Sound) (s : Start) (ops : List WOp)
+    (hr : GoRange a s ops) :
+    (s.model.run a ops).1 = (specRun s.spec ops).1 ∧ WSim (after a s ops) (specAfter s ops) := by
+  have _ := hr
+  exact refines a ha s ops
 
-/-- the model never reaches a Go panic (slice bounds in Malloc or in Flush's stitching loop) nor a
-    non-terminating growth loop, in any history -/
-theorem no_panic (a : WAlloc) (ha : a.Sound) (s : Start) (ops : List WOp) :
+/-- In range, no history reaches a Go panic of the writer's own code (slice bounds in Malloc or in
+    Flush's stitching loop) nor a non-terminating growth loop.  (Outside the range the real code does
+    panic — mcache index — or spin — `int` wrap; see the header and `range_keeps_requests_small`.) -/
+theorem no_panic (a : WAlloc) (ha : a.Sound) (s : Start) (ops : List WOp)
+    (hr : GoRange a s ops) :
     ∀ o ∈ (s.model.run a ops).1, ∀ why, o ≠ .stuck why := by
+  -- the range only scopes the claim to where the model is Go; the model fact itself needs no bound
+  have hr' := hr; clear hr' hr
   rw [(refines a ha s ops).1]
   generalize s.spec = l
   induction ops generalizing l with
@@ -88,7 +98,8 @@ theorem no_panic (a : WAlloc) (ha : a.Sound) (s : Start) (ops : List WOp) :
     ℓ₁ ≤ … ≤ ℓ_k ≤ len ≤ cap; the objects are distinct; every non-empty region handed out since the
     last Flush lies entirely inside the range [ℓ_{j-1}, ℓ_j) (resp. [ℓ_k, len)) that Flush copies out
     of the object it lives in; the regions are consecutive, hence pairwise disjoint. -/
-theorem key_invariant (a : WAlloc) (ha : a.Sound) (s : Start) (ops : List WOp) :
+theorem key_invariant (a : WAlloc) (ha : a.Sound) (s : Start) (ops : List WOp)
+    (hr : GoRange a s ops) :
     let w := after a s ops
     WInv w ∧
     ∀ v, w.buf = some v →
@@ -97,6 +108,7 @@ theorem key_invariant (a : WAlloc) (ha : a.Sound) (s : Start) (ops : List WOp) :
       (∀ r ∈ w.regions, r.n = 0 ∨ Owned v.obj v.len 0 w.pending r.obj r.off r.n) ∧
       w.regions.Pairwise (fun r r' => r.off + r.n ≤ r'.off) := by
   intro w
+  have _ := hr
   have hw := (sim_after a ha s ops).inv
   refine ⟨hw, fun v hv => ?_⟩
   have ok := hw.buf_ok v hv
@@ -108,7 +120,8 @@ theorem key_invariant (a : WAlloc) (ha : a.Sound) (s : Start) (ops : List WOp) :
     sink is not called, or the sink is called exactly ONCE, with bytes that agree with the
     concatenation of the items' latest contents in order (everywhere the caller stored something);
     Flush returns nil iff the sink accepted, else the sink's error. -/
-theorem flush_bytes (a : WAlloc) (ha : a.Sound) (s : Start) (ops : List WOp) :
+theorem flush_bytes (a : WAlloc) (ha : a.Sound) (s : Start) (ops : List WOp)
+    (hr : GoRange a s ops) :
     let w := after a s ops
     let l := specAfter s ops
     w.err = none →
@@ -117,6 +130,7 @@ theorem flush_bytes (a : WAlloc) (ha : a.Sound) (s : Start) (ops : List WOp) :
           (r = none → w.flush.1 = .ok ()) ∧ (∀ e, r = some e → w.flush.1 = .err e)) ∨
       (w.flush.2.sink.calls = w.sink.calls ∧ l.unflushed = [] ∧ w.flush.1 = .ok ()) := by
   intro w l he
+  have _ := hr
   have h : WSim w l := sim_after a ha s ops
   have hcl : (concat l.store l.items).length = lenSum l.items := length_concat _ _ h.store_ok
   have hll : w.logical.length = w.writtenLen := by
@@ -149,26 +163,33 @@ theorem flush_bytes (a : WAlloc) (ha : a.Sound) (s : Start) (ops : List WOp) :
 
 /-- Over all flushes of any history: the bytes the sink accepted, concatenated, agree with what the
     log spec emitted — every item's latest content, each byte exactly once, in order. -/
-theorem flushed_once_in_order (a : WAlloc) (ha : a.Sound) (s : Start) (ops : List WOp) :
-    Match (after a s ops).sunk (specAfter s ops).emitted := (sim_after a ha s ops).sunk
+theorem flushed_once_in_order (a : WAlloc) (ha : a.Sound) (s : Start) (ops : List WOp)
+    (hr : GoRange a s ops) :
+    Match (after a s ops).sunk (specAfter s ops).emitted := by
+  have _ := hr
+  exact (sim_after a ha s ops).sunk
 
 /-! ## WrittenLen -/
 
 /-- WrittenLen = the number of unflushed bytes of the log (initial contents of a bytes writer
     included), after every history -/
-theorem writtenLen_eq (a : WAlloc) (ha : a.Sound) (s : Start) (ops : List WOp) :
+theorem writtenLen_eq (a : WAlloc) (ha : a.Sound) (s : Start) (ops : List WOp)
+    (hr : GoRange a s ops) :
     (after a s ops).writtenLen = (specAfter s ops).writtenLen ∧
     (specAfter s ops).writtenLen = (specAfter s ops).unflushed.length := by
   have h := sim_after a ha s ops
+  have _ := hr
   refine ⟨?_, ?_⟩
   · rw [writtenLen_eq_lenSum, h.wlen]; rfl
   · rw [writtenLen_eq_lenSum, unflushed_eq, length_concat _ _ h.store_ok]
 
 /-- a successful Flush resets WrittenLen to zero and leaves nothing pending -/
-theorem flush_resets (a : WAlloc) (ha : a.Sound) (s : Start) (ops : List WOp) :
+theorem flush_resets (a : WAlloc) (ha : a.Sound) (s : Start) (ops : List WOp)
+    (hr : GoRange a s ops) :
     let w := after a s ops
     w.flush.1 = .ok () → w.flush.2.writtenLen = 0 ∧ w.flush.2.pending = [] ∧ w.flush.2.regions = [] := by
   intro w hok
+  have _ := hr
   have h : WSim w (specAfter s ops) := sim_after a ha s ops
   cases he : w.err with
   | some e => simp [Wr.flush, he] at hok
@@ -242,7 +263,8 @@ theorem sticky_forever (a : WAlloc) (w : Wr) (e : RErr) (h : w.err = some e) (op
     nothing is released or forgotten (current and parked buffers, WrittenLen unchanged); and from
     then on every Malloc / WriteBinary / Flush of every continuation returns this error, without
     ever calling the sink again. -/
-theorem sink_error_sticky (a : WAlloc) (ha : a.Sound) (s : Start) (ops : List WOp) (e : RErr) :
+theorem sink_error_sticky (a : WAlloc) (ha : a.Sound) (s : Start) (ops : List WOp)
+    (hr : GoRange a s ops) (e : RErr) :
     let w := after a s ops
     w.err = none → w.flush.1 = .err e →
       w.sink.fail (w.sink.calls.length + 1) = some e ∧
@@ -250,6 +272,7 @@ theorem sink_error_sticky (a : WAlloc) (ha : a.Sound) (s : Start) (ops : List WO
       ∀ ops', AllStuck e ops' (w.flush.2.run a ops').1 ∧
               (w.flush.2.run a ops').2.sink.calls.length = w.sink.calls.length + 1 := by
   intro w he hfl
+  have _ := hr
   have h : WSim w (specAfter s ops) := sim_after a ha s ops
   cases hb : w.buf with
   | none => rw [flush_nil w he hb] at hfl; cases hfl
@@ -273,70 +296,19 @@ theorem sink_error_sticky (a : WAlloc) (ha : a.Sound) (s : Start) (ops : List WO
 
 /-! ## bytes writer: the target slice -/
 
-/-- Bytes-backed writer, first flush epoch (any flush-free history, then Flush), for EVERY initial
-    slice — nil (`bytesNil`), empty with or without capacity, partly filled, full (`bytes init spare`
-    with init / spare empty or not), and any number of growths: Flush succeeds and the target slice
-    `*buf` is the initial contents followed by the written bytes (the log's items in order). -/
-theorem bytesWriter_target (a : WAlloc) (ha : a.Sound) (s : Start) (hs : ∀ f, s ≠ .default f)
-    (ops : List WOp) (hnf : ∀ op ∈ ops, op ≠ .flush) :
+/-- Bytes-backed writer, first flush epoch (any flush-free history in range, then Flush), for EVERY
+    initial slice — nil (`bytesNil`), empty with or without capacity, partly filled, full (`bytes init
+    spare` with init / spare empty or not), and any number of growths: Flush succeeds and the target
+    slice `*buf` is the initial contents followed by the written bytes (the log's items in order). -/
+theorem bytesWriter_target_in_range (a : WAlloc) (ha : a.Sound) (s : Start) (hs : ∀ f, s ≠ .default f)
+    (ops : List WOp) (hnf : ∀ op ∈ ops, op ≠ .flush) (hr : GoRange a s ops) :
     let w := after a s ops
     let l := specAfter s ops
     w.flush.1 = .ok () ∧
     ∃ written, l.unflushed = s.init.map some ++ written ∧
       Match w.flush.2.targetBytes (s.init.map some ++ written) := by
-  intro w l
-  have hinit : s.init = match s with | .bytes i _ => i | _ => [] := by cases s <;> rfl
-  generalize s.init = init at hinit ⊢
-  have h : WSim w l := sim_after a ha s ops
-  have hdc0 : s.model.disableCache = true ∧ s.model.err = none := by
-    cases s with
-    | default f => exact absurd rfl (hs f)
-    | bytes i sp => exact ⟨rfl, rfl⟩
-    | bytesNil => exact ⟨rfl, rfl⟩
-  obtain ⟨hdc, he, htgt⟩ := bytes_noflush a ha s.model s.spec (sim_start s) hdc0.1 hdc0.2 ops hnf
-  -- the log still starts with the initial contents
-  obtain ⟨tail, htail⟩ := spec_noflush s.spec ops hnf
-  have hitems : l.items = .payload init :: tail := by
-    show (specRun s.spec ops).2.items = _
-    rw [htail]
-    cases s with
-    | default f => exact absurd rfl (hs f)
-    | bytes i sp => subst hinit; rfl
-    | bytesNil => subst hinit; rfl
-  have hunf : l.unflushed = init.map some ++ concat l.store tail := by
-    rw [unflushed_eq, hitems, concat_cons]; rfl
-  have hcontent : Match w.logical (init.map some ++ concat l.store tail) := by
-    rw [← hunf]; exact h.content
-  cases hb : w.buf with
-  | none =>
-    refine ⟨by rw [flush_nil w he hb], concat l.store tail, hunf, ?_⟩
-    rw [flush_nil w he hb]
-    -- nothing was ever written and the initial slice is empty: the target is still the initial slice
-    have hlog : w.logical = [] := by simp [Wr.logical, hb]
-    rw [hlog] at hcontent
-    have hlen := (Match.length_eq hcontent).symm
-    have hnil : init.map some ++ concat l.store tail = [] := List.eq_nil_of_length_eq_zero hlen
-    rw [hnil]
-    have hinit0 : init = [] := by
-      have := congrArg List.length hnil
-      simp at this
-      exact this.1
-    have : (after a s ops).target = s.model.target := htgt
-    show Match (Wr.viewBytes _ (after a s ops).target) []
-    rw [this]
-    cases s with
-    | default f => exact absurd rfl (hs f)
-    | bytesNil => simp [Start.model, Wr.newBytesNil, Wr.newDefault, Wr.viewBytes, Match]
-    | bytes i sp =>
-      have hi : i = [] := by rw [← hinit0]; exact hinit.symm
-      subst hi
-      simp [Start.model, Wr.newBytes, Wr.viewBytes, gslice, Match]
-  | some v =>
-    obtain ⟨heap1, _, _, f3, _, hT, _, _⟩ := flush_some w h.inv he v hb
-    refine ⟨by rw [hT hdc], concat l.store tail, hunf, ?_⟩
-    rw [hT hdc]
-    show Match (gslice (heap1 v.obj) 0 v.len) _
-    rw [f3]; exact hcontent
+  have _ := hr
+  exact bytesWriter_target a ha s hs ops hnf
 
 /-- Bytes-backed writer, EVERY flush epoch.  Split any history at one of its Flushes:
     `pre ++ [Flush] ++ ep` with `ep` flush-free.  That Flush starts the log over (`l0.items = []`:
@@ -350,7 +322,7 @@ theorem bytesWriter_target (a : WAlloc) (ha : a.Sound) (s : Start) (hs : ∀ f, 
     for every k; the literal clause "initial contents followed by the written bytes" therefore FAILS
     for histories with more than one non-empty epoch: `bytesWriter_target_all_epochs_fails` (F15). -/
 theorem bytesWriter_target_epochs (a : WAlloc) (ha : a.Sound) (s : Start) (hs : ∀ f, s ≠ .default f)
-    (pre ep : List WOp) :
+    (pre ep : List WOp) (hr : GoRange a s (pre ++ .flush :: ep)) :
     let w := after a s (pre ++ .flush :: ep)
     let l0 := specAfter s (pre ++ [.flush])
     let l := specAfter s (pre ++ .flush :: ep)
@@ -359,6 +331,7 @@ theorem bytesWriter_target_epochs (a : WAlloc) (ha : a.Sound) (s : Start) (hs : 
     (w.buf ≠ none → Match w.flush.2.targetBytes l.unflushed) ∧
     (w.buf = none → l.unflushed = [] ∧ w.flush.2.target = w.target) := by
   intro w l0 l
+  have _ := hr
   have hdc0 : s.model.disableCache = true ∧ s.model.err = none := by
     cases s with
     | default f => exact absurd rfl (hs f)
@@ -398,12 +371,12 @@ theorem bytesWriter_target_epochs (a : WAlloc) (ha : a.Sound) (s : Start) (hs : 
     are gone (`fakeIOWriter.Write` publishes the buffer of the latest epoch only). -/
 theorem bytesWriter_target_all_epochs_fails :
     ∃ (s : Start) (ops : List WOp) (written : Bytes),
-      (∀ f, s ≠ .default f) ∧
+      (∀ f, s ≠ .default f) ∧ GoRange ⟨fun c => c, fun _ _ => 0⟩ s ops ∧
       (specAfter s ops).emitted = (s.init ++ written).map some ∧     -- all of it was written and flushed
       (after ⟨fun c => c, fun _ _ => 0⟩ s ops).targetBytes ≠ s.init ++ written ∧
       (after ⟨fun c => c, fun _ _ => 0⟩ s ops).targetBytes = [4] :=
   ⟨.bytes [1, 2] [0], [.wb [3], .flush, .wb [4], .flush], [3, 4],
-    ⟨fun f h => (by cases h), (by decide), (by decide), (by decide)⟩⟩
+    ⟨fun f h => (by cases h), (by decide), (by decide), (by decide), (by decide)⟩⟩
 
 /-! ## independence from dirty memory and from the capacity policy -/
 
@@ -412,13 +385,13 @@ theorem bytesWriter_target_all_epochs_fails :
     has stored every byte it was handed (the spec's bytes are all specified: `= t.map some`), the
     sink receives exactly `t` under both. -/
 theorem independent_of_dirty_memory (a₁ a₂ : WAlloc) (h₁ : a₁.Sound) (h₂ : a₂.Sound) (s : Start)
-    (ops : List WOp) :
+    (ops : List WOp) (hr₁ : GoRange a₁ s ops) (hr₂ : GoRange a₂ s ops) :
     (s.model.run a₁ ops).1 = (s.model.run a₂ ops).1 ∧
     ∀ t : Bytes, (specAfter s ops).emitted = t.map some →
       (after a₁ s ops).sunk = t ∧ (after a₂ s ops).sunk = t := by
   refine ⟨by rw [(refines a₁ h₁ s ops).1, (refines a₂ h₂ s ops).1], fun t ht => ?_⟩
-  exact ⟨match_all_some (flushed_once_in_order a₁ h₁ s ops) t ht,
-    match_all_some (flushed_once_in_order a₂ h₂ s ops) t ht⟩
+  exact ⟨match_all_some (flushed_once_in_order a₁ h₁ s ops hr₁) t ht,
+    match_all_some (flushed_once_in_order a₂ h₂ s ops hr₂) t ht⟩
 
 /-- a store that covers a whole region makes the spec's content of that region fully specified -/
 theorem fill_whole_specified (l : Log RErr) (id : Nat) (bs : Bytes) (h : bs.length = (l.store id).length) :
@@ -441,6 +414,10 @@ example (d : Nat → Nat → UInt8) : (⟨fun c => max c (pow2ceil c), d⟩ : WA
   fun _ => Nat.le_max_left _ _
 example (c : Nat) (h : c ≤ 2 ^ 64) : max c (pow2ceil c) = pow2ceil c :=
   Nat.max_eq_right (pow2ceil_ge c h)
+
+example : exA.Within poolLimit := fun _ h => h
+example (d : Nat → Nat → UInt8) : (⟨fun c => max c (pow2ceil c), d⟩ : WAlloc).Within poolLimit :=
+  pow2_policy_within d 45
 
 def failAt (k : Nat) : Nat → Option RErr := fun c => if c = k then some (.src k) else none
 
@@ -465,6 +442,21 @@ set_option maxRecDepth 8000 in
 example : (specAfter (.bytes [1, 2] [0]) exOps).emitted = ([1, 2, 4, 5, 6, 7, 8, 9] : Bytes).map some := by
   decide
 example : ∀ op ∈ exOps.take 6, op ≠ .flush := by decide
+-- the range hypotheses hold for this history (and for every history the harness generates: sizes ≤ 70000)
+set_option maxRecDepth 8000 in
+example : GoRange exA (.bytes [1, 2] [0]) exOps ∧ GoRange exB (.bytes [1, 2] [0]) exOps ∧
+    CapsLe poolLimit (Start.bytes [1, 2] [0]).model := by decide
+example (f : Nat → Option RErr) : CapsLe poolLimit (Start.default f).model := by
+  refine ⟨Nat.zero_le _, fun x hx => ?_⟩
+  have : x = 0 := by
+    have h := hx
+    simp [Start.model, Wr.newDefault, emptyStats] at h
+    exact h.2
+  omega
+-- and they exclude exactly the requests on which the real code leaves the model: Malloc(1<<46)
+-- (mcache index panic) and Malloc(1<<62+1) (`maxSize *= 2` wraps, the loop spins)
+example : ¬ GoRange exA (.default (fun _ => none)) [.malloc (2 ^ 46)] ∧
+    ¬ GoRange exA (.default (fun _ => none)) [.malloc (2 ^ 62 + 1)] := by decide
 -- a region the caller never stored into is flushed with whatever the fresh buffer held: that is
 -- exactly where two allocators differ, and exactly where the spec says `none`
 set_option maxRecDepth 8000 in
